@@ -412,3 +412,8 @@ impl<D: DataRef> WriterTo for VecZnx<D> {
         Ok(())
     }
 }
+
+#[cfg(kani)]
+mod verif_kani {
+    include!(concat!(env!("POULPY_VERIF_KX"), "/hal/vec_znx.rs"));
+}
